@@ -2,7 +2,7 @@ SPEC = {
     'id': 'C39',
     'harness': 'hC39',
     'coq_dir': 'C39',
-    'claimed': False,
+    'claimed': True,
     'theorems': ['C39_jsonrpc_runs_implies_allowed', 'C39_jsonrpc_gate_sees_dispatched_method',
                  'C39_grpc_runs_implies_allowed_refuted', 'C39_grpc_runs_implies_allowed_partial',
                  'C39_eth_refuted', 'C39_eth_same_clients_partial', 'C39_eth_guard_exact'],
